@@ -401,3 +401,110 @@ def secretsOf (doc : QMeta) : List Str :=
   | none => []
 
 end MaddyVerif.WireSpool
+
+/-!
+## Several queue blocks, several messages (`C10 fleet`)
+
+Mirrored Go code (`internal/target/queue/queue.go`):
+* `NewQueue` / `Queue.Init`: the spool directory of a block is the `location` directive resp. the inline
+  argument when there is one, `filepath.Join(config.StateDirectory, <instance name>)` otherwise (`dirOf`);
+* `queueDelivery.Body` -> `storeNewMessage`: the files `<id>.header`, `<id>.body`, `<id>.meta` of the block's
+  directory are written IN THAT ORDER, `<id>.meta` last and only when header and body are complete: a
+  process that dies while the body is copied leaves no `<id>.meta` of that message (`Phase1.leftBehind` -
+  the entries of the directory WITHOUT the one being stored);
+* `queueDelivery.Commit` / `dispatch`: the first attempt is made from memory with the delivery's own
+  header (`queueSlot.Hdr` points into an object nobody else touches), by the block that accepted the
+  message, as soon as one of its `max_parallelism` slots is free (`blocked`); a next hop that takes the
+  message makes `tryDelivery` remove the entry, a temporary failure keeps it;
+* `readDiskQueue` (restart): every `<id>.meta` of the block's OWN directory with header and body present is
+  scheduled and handed to the block's own target (`handedAfterRestart`).
+Two blocks that end up with the same directory share the files; the model then hands every entry of the
+directory to each of them (the real interleaving is not modelled - `C10_fleet_dirs_distinct` says when it
+cannot happen, and that hypothesis is what the configuration loader guarantees: instance names are unique).
+-/
+namespace MaddyVerif.SpoolFleet
+
+inductive Loc | dflt | directive | inline
+  deriving DecidableEq, Repr
+
+structure Block where
+  name : List Nat
+  loc : Loc
+  par : Nat
+  deriving Repr
+
+inductive Dir
+  | state (name : List Nat)
+  | own (k : Nat)
+  deriving DecidableEq, Repr
+
+/-- `Queue.Init`: where block `k` keeps its files. -/
+def dirOf (bs : List Block) (k : Nat) : Dir :=
+  match bs[k]? with
+  | some b => if b.loc = Loc.dflt then Dir.state b.name else Dir.own k
+  | none => Dir.own k
+
+inductive Fate | taken | deferred | hangs
+  deriving DecidableEq, Repr
+
+structure Msg where
+  q : Nat
+  tag : Nat
+  fate : Fate
+  crash : Bool
+  deriving Repr
+
+/-- a complete spool entry (`<id>.meta` + header + body): the block that stored it, the ID, the message -/
+structure Entry where
+  q : Nat
+  tag : Nat
+  idx : Nat
+  fate : Fate
+  deriving Repr, DecidableEq
+
+structure Phase1 where
+  spool : List Entry := []
+  held : List (Nat × Nat) := []          -- block, number of deliveries hanging in the next hop's Start
+  leftBehind : List (Nat × List Entry) := []   -- message being stored when the process died, what a restart finds
+  deriving Repr
+
+def heldOf (h : List (Nat × Nat)) (k : Nat) : Nat :=
+  match h.find? (fun p => p.1 == k) with
+  | some p => p.2
+  | none => 0
+
+def parOf (bs : List Block) (k : Nat) : Nat :=
+  match bs[k]? with
+  | some b => b.par
+  | none => 1
+
+/-- same file names in the same directory -/
+def sameFiles (bs : List Block) (m : Msg) (e : Entry) : Bool :=
+  decide (dirOf bs e.q = dirOf bs m.q) && e.tag == m.tag
+
+/-- what a process that dies while message `m` is being stored leaves for the next start to load -/
+def leftBy (bs : List Block) (spool : List Entry) (m : Msg) : List Entry :=
+  spool.filter fun e => decide (dirOf bs e.q = dirOf bs m.q) && !(e.tag == m.tag)
+
+def submit (bs : List Block) (st : Phase1) (im : Nat × Msg) : Phase1 :=
+  let (i, m) := im
+  let blocked := decide (parOf bs m.q ≤ heldOf st.held m.q)
+  let left := if m.crash then st.leftBehind ++ [(i, leftBy bs st.spool m)] else st.leftBehind
+  let others := st.spool.filter fun e => !(sameFiles bs m e)
+  let spool := if m.fate = Fate.taken ∧ blocked = false then others
+               else others ++ [{ q := m.q, tag := m.tag, idx := i, fate := m.fate }]
+  let held := if m.fate = Fate.hangs ∧ blocked = false
+              then (m.q, heldOf st.held m.q + 1) :: st.held.filter (fun p => !(p.1 == m.q)) else st.held
+  { spool := spool, held := held, leftBehind := left }
+
+def phase1 (bs : List Block) (ms : List Msg) : Phase1 :=
+  ((List.range ms.length).zip ms).foldl (submit bs) {}
+
+/-- at rest after the gates were opened: what the next hop deferred -/
+def atRest (st : Phase1) : List Entry := st.spool.filter fun e => e.fate = Fate.deferred
+
+/-- `readDiskQueue` of block `k`: the entries of ITS directory -/
+def handedAfterRestart (bs : List Block) (spool : List Entry) (k : Nat) : List Entry :=
+  spool.filter fun e => decide (dirOf bs e.q = dirOf bs k)
+
+end MaddyVerif.SpoolFleet
